@@ -550,7 +550,9 @@ def match_trace(r, items, prog_c, nbytes, stats, pointers=False):
             return ("wrong-position", "event %d %s fired while processing byte %d; reading allows %s" % (k, e, base, "byte %d" % (e.pos - 1) if e.exact else "byte %d or %d" % (e.pos - 1, e.pos)))
         if pointers and off is not None and off >= 0:
             if kind == "yield" and off != e.pos:
-                return ("wrong-pointer", "yield %s leaves the pointer at %d, %d bytes were consumed" % (e.data, off, e.pos))
+                nxt = vis[k + 1] if k + 1 < len(vis) else None
+                tag = "[yield-on-final-transition]" if (off == e.pos - 1 and nxt is not None and nxt.kind == "finish" and nxt.data is None and nxt.pos == e.pos) else ""
+                return ("wrong-pointer" + tag, "yield %s leaves the pointer at %d, %d bytes were consumed" % (e.data, off, e.pos))
             if kind == "term":
                 if e.kind == "fail":
                     allowed = (e.pos - 1, e.pos) if r.fail_slack else (e.pos,)
